@@ -13,8 +13,8 @@ import (
 	"sync/atomic"
 	"time"
 
-	metav1 "k8s.io/apimachinery/pkg/apis/meta/v1"
 	apierrors "k8s.io/apimachinery/pkg/api/errors"
+	metav1 "k8s.io/apimachinery/pkg/apis/meta/v1"
 	"k8s.io/client-go/tools/leaderelection/resourcelock"
 
 	"github.com/kubewharf/kubebrain/pkg/backend"
@@ -33,6 +33,45 @@ type ElTap struct {
 	GetCalls  int
 	LastGet   []byte
 	LastGetOK bool
+	// fault injection: when armed, the first timestamp-oracle read that follows a committed batch fails
+	// (and every further read, until Disarm) — the engine write has landed, the clock is unreachable
+	armed   bool
+	failing bool
+}
+
+// ArmTsoFaultAfterCommit makes the timestamp oracle fail from the next committed batch on, until DisarmTsoFault.
+func (t *ElTap) ArmTsoFaultAfterCommit() {
+	t.mu.Lock()
+	t.armed, t.failing = true, false
+	t.mu.Unlock()
+}
+
+// DisarmTsoFault ends the injected outage.
+func (t *ElTap) DisarmTsoFault() {
+	t.mu.Lock()
+	t.armed, t.failing = false, false
+	t.mu.Unlock()
+}
+
+type tapBatch struct {
+	storage.BatchWrite
+	t *ElTap
+}
+
+func (b *tapBatch) Commit(ctx context.Context) error {
+	err := b.BatchWrite.Commit(ctx)
+	if err == nil {
+		b.t.mu.Lock()
+		if b.t.armed {
+			b.t.failing = true
+		}
+		b.t.mu.Unlock()
+	}
+	return err
+}
+
+func (t *ElTap) BeginBatchWrite() storage.BatchWrite {
+	return &tapBatch{BatchWrite: t.KvStorage.BeginBatchWrite(), t: t}
 }
 
 func (t *ElTap) Get(ctx context.Context, key []byte) ([]byte, error) {
@@ -56,6 +95,16 @@ func (t *ElTap) GetSnapshot() (int, []byte, bool) {
 }
 
 func (t *ElTap) GetTimestampOracle(ctx context.Context) (uint64, error) {
+	t.mu.Lock()
+	failing := t.failing
+	t.mu.Unlock()
+	if failing {
+		t.mu.Lock()
+		t.TsoCalls++
+		t.LastTs, t.LastErr = 0, ErrInjected
+		t.mu.Unlock()
+		return 0, ErrInjected
+	}
 	ts, err := t.KvStorage.GetTimestampOracle(ctx)
 	t.mu.Lock()
 	t.TsoCalls++
